@@ -494,3 +494,54 @@ Section Comments.
     rewrite firstn_len_app. reflexivity.
   Qed.
 End Comments.
+
+(** * Paragraph breaks *)
+Lemma find_nl_app a x : mem_c 10 a = false -> find_nl (a ++ 10%N :: x) = length a.
+Proof.
+  induction a as [|c a IH]; intros H; [reflexivity|].
+  cbn [mem_c existsb] in H. apply orb_false_iff in H. destruct H as [H1 H2].
+  cbn [app find_nl length]. rewrite N.eqb_sym, H1. f_equal. apply IH. exact H2.
+Qed.
+
+Lemma rfind_nl_last x : rfind_nl (x ++ [10%N]) = length x.
+Proof.
+  unfold rfind_nl. rewrite rev_app_distr. cbn. rewrite app_length. cbn. lia.
+Qed.
+
+Lemma assoc_existsb {A} (l : list (str * A)) k v : assoc l k = Some v -> existsb (str_eqb k) (map fst l) = true.
+Proof.
+  induction l as [|[k' v'] l IH]; [discriminate|]. cbn [assoc map fst existsb].
+  destruct (str_eqb k' k) eqn:E.
+  - intros _. apply pe_str_eqb_eq in E. subst k'.
+    assert (R : str_eqb k k = true) by (apply pe_str_eqb_eq; reflexivity). rewrite R. reflexivity.
+  - intros H. rewrite (IH H). apply orb_true_r.
+Qed.
+
+Lemma impl_peek_par cx ps s pos ws mid fol sp : std_view cx ps ->
+  skipn pos s = ws ++ 10%N :: mid ++ 10%N :: fol ->
+  forallb is_space ws = true -> mem_c 10 ws = false -> forallb is_space mid = true ->
+  hd_not is_space fol -> get_specials_spec cx [10;10]%N = Some sp ->
+  impl_peek ps s pos
+  = TokOk (mk TkSpecials [10;10]%N (pos + length ws) (pos + length ws + 1 + length mid + 1) ws []).
+Proof.
+  intros V SK W NW WM HF SP.
+  set (pre0 := ws ++ 10%N :: mid ++ [10%N]).
+  assert (SK' : skipn pos s = pre0 ++ fol).
+  { unfold pre0. rewrite <- app_assoc. cbn [app]. rewrite <- app_assoc. exact SK. }
+  assert (W0 : forallb is_space pre0 = true).
+  { unfold pre0. rewrite forallb_app. cbn [forallb]. rewrite forallb_app. cbn [forallb].
+    rewrite W, WM, space_10. reflexivity. }
+  unfold impl_peek. rewrite (peek_space_at s pos pre0 fol SK' W0 HF), (sv_dnp _ _ V).
+  assert (C : Nat.leb 2 (count_c 10 pre0) = true).
+  { apply Nat.leb_le. unfold pre0. rewrite count_c_app. cbn [count_c]. rewrite count_c_app. cbn [count_c].
+    rewrite N.eqb_refl. lia. }
+  rewrite C. cbn [andb]. unfold par_token.
+  assert (F1 : find_nl pre0 = length ws) by (apply find_nl_app; exact NW).
+  assert (F2 : rfind_nl pre0 = length (ws ++ 10%N :: mid)).
+  { unfold pre0. change (ws ++ 10%N :: mid ++ [10%N]) with (ws ++ (10%N :: mid) ++ [10%N]).
+    rewrite app_assoc. apply rfind_nl_last. }
+  rewrite F1, F2. unfold pre0 at 1. rewrite firstn_len_app, (sv_specials _ _ V).
+  unfold get_specials_spec in SP. rewrite (assoc_existsb _ _ _ SP).
+  rewrite app_length. cbn [length].
+  replace (pos + S (length ws + S (length mid))) with (pos + length ws + 1 + length mid + 1) by lia. reflexivity.
+Qed.
